@@ -13,7 +13,8 @@ RULE = ("DEC on every byte string of length <= 2 (exhaustive) and a seeded sampl
         "conformant bundles (dictionary item substitution, truncation, duplication, deletion, type confusion, length tampering, bit flips, "
         "splices, deep tag nesting) and on targeted boundary bundles (CRC type >= 3, hop count 255, age 2^64-1, block number 2^64-1, "
         "times near 2^64); debug and release builds; non-trivial = distinct input that decodes, or distinct short string")
-TRUSTED_BASE = CODEC_TRUSTED + ["allocation volume inside serde (cautious() cap) and stack bytes per frame are runtime behaviour, not modelled"]
+TRUSTED_BASE = CODEC_TRUSTED + ["allocation volume is MEASURED (DECA: peak bytes under a counting allocator, bound 64 x input + 2 MiB), not proved; "
+                                "stack bytes per frame are runtime behaviour, not modelled"]
 ASSUMPTIONS = ["clock not before 2000-01-01 for the operations that read it"]
 
 NODE = "DTN 1 x2f2f686572652f"
@@ -69,6 +70,7 @@ def corpus():
         b = genb.rnd_bundle(rng, nblocks=nb, crc_kind=rng.randrange(3))
         for buf in _definite_outer(genb.ref_bundle(b)[0], nb + 2):
             out.append("DEC " + xhex(buf))
+            out.append("DECA " + xhex(buf))
             out.append(_rx(rng, buf, OFFSET + 5000))
     for buf in _targeted(rng):
         out.append("DEC " + xhex(buf))
@@ -108,23 +110,30 @@ def cases(rng, tier):
     for _ in range(nm // 40):
         nb = rng.randrange(0, 4)
         b = genb.rnd_bundle(rng, nblocks=nb)
-        out.append("DEC " + xhex(rng.choice(_definite_outer(genb.ref_bundle(b)[0], nb + 2))))
+        out.append(rng.choice(["DEC ", "DECA "]) + xhex(rng.choice(_definite_outer(genb.ref_bundle(b)[0], nb + 2))))
     for _ in range(nm):
         buf = rng.choice(seeds)
         for _ in range(rng.choice([1, 1, 1, 2, 3])):
             buf = genb.mutate(rng, buf)
-        out.append(_rx(rng, buf) if rng.random() < 0.8 else "DEC " + xhex(buf))
+        r = rng.random()
+        out.append(_rx(rng, buf) if r < 0.7 else ("DEC " if r < 0.85 else "DECA ") + xhex(buf))
     return out
 
 
 def oracle(line, out, mode):
     if out in ("PANIC", "ABORT", "CRASH", "TIMEOUT") or " PANIC" in out:
         return "receive path does not return normally: %s" % out[:60]
+    if line.startswith("DECA "):
+        # allocation in proportion to the input: generous linear bound + the 1 MiB pre-allocation cap of serde's `cautious`
+        n = (len(line.split(" ")[1]) - 1) // 2
+        toks = out.split(" ")
+        if len(toks) == 3 and toks[1] == "PEAK" and int(toks[2]) > 64 * n + 2 * 1024 * 1024:
+            return "decoder allocated %s bytes for a %d-byte input" % (toks[2], n)
     return None
 
 
 def same(line, io, mo):
-    return False
+    return line.startswith("DECA ")      # measured on the implementation only (the model prints NA)
 
 
 def classify(line, out):
